@@ -63,6 +63,9 @@ type Ctx struct {
 	assigned map[*ssa.Function]map[ast.Expr]string
 	singleImplAllowed map[string]bool
 	dispatch map[string]types.Type // interface key -> concrete type
+	fieldMapTypes map[string]*types.Map
+	allocCache map[*ssa.Function]map[string]bool
+	settable map[string]bool // boolean ghosts updated by `set` statements
 }
 
 type fieldMode struct {
@@ -70,6 +73,10 @@ type fieldMode struct {
 	Arg  string
 	Deep bool
 	Owned string // additionally owned_by(<goroutine>)
+	ReceivedBy string // received_by(g): only goroutine g receives from the channel the field holds
+	NeverClosed bool // the channel the field holds is never closed
+	Frozen bool // frozen_contents: the contents of the map the field holds are written only before the object is shared
+	Contents string // additionally guarded_contents(<lock>): the contents of the map the field holds are guarded
 }
 
 type funcRun struct {
@@ -325,6 +332,9 @@ func (c *Ctx) addSpecFile(sf *SpecFile, p *packages.Package) error {
 			return fmt.Errorf("CONTRACT-ERROR %s: duplicate contract for %s", sf.Path, key)
 		}
 		ct.Key = key
+		if p != nil {
+			ct.Pkg = p.Types
+		}
 		c.Contracts[key] = ct
 	}
 	for _, pd := range sf.Pures {
@@ -381,6 +391,16 @@ func (c *Ctx) addSpecFile(sf *SpecFile, p *packages.Package) error {
 					return fmt.Errorf("CONTRACT-ERROR %s: struct %s has no field %q", sf.Path, fa.Struct, fn)
 				}
 				k := c.Reg.TypeKey(obj.Type()) + "|" + fn
+				if c.fieldMapTypes == nil {
+					c.fieldMapTypes = map[string]*types.Map{}
+				}
+				for i := 0; i < st.NumFields(); i++ {
+					if st.Field(i).Name() == fn {
+						if mt, ok := st.Field(i).Type().Underlying().(*types.Map); ok {
+							c.fieldMapTypes[k] = mt
+						}
+					}
+				}
 				fm := c.FieldAnnos[k]
 				if fm == nil {
 					fm = &fieldMode{}
@@ -388,6 +408,14 @@ func (c *Ctx) addSpecFile(sf *SpecFile, p *packages.Package) error {
 				}
 				if fa.Mode == "owned_by" {
 					fm.Owned = fa.Arg
+				} else if fa.Mode == "guarded_contents" {
+					fm.Contents = fa.Arg
+				} else if fa.Mode == "frozen_contents" {
+					fm.Frozen = true
+				} else if fa.Mode == "received_by" {
+					fm.ReceivedBy = fa.Arg
+				} else if fa.Mode == "neverclosed" {
+					fm.NeverClosed = true
 				} else {
 					fm.Mode = fa.Mode
 					fm.Arg = fa.Arg
@@ -476,4 +504,87 @@ func (c *Ctx) Fork(intBV bool) *Ctx {
 		n.FieldAnnos[k] = v
 	}
 	return &n
+}
+
+// baseContract resolves `opt implements iface [pkg.]Iface.Method` / `opt implements field T.f`:
+// the contract the function has to satisfy in addition to its own clauses.
+func (c *Ctx) baseContract(ct *Contract) (*Contract, error) {
+	spec := strings.TrimSpace(ct.Opts["implements"])
+	if spec == "" {
+		// `opt assumes ...`: only the preconditions of the named contract are inherited
+		spec = strings.TrimSpace(ct.Opts["assumes"])
+	}
+	if spec == "" || ct.Pkg == nil {
+		return nil, nil
+	}
+	kind, rest := splitWord(spec)
+	rest = strings.TrimSpace(rest)
+	switch kind {
+	case "iface":
+		parts := strings.Split(rest, ".")
+		pkg := ct.Pkg
+		if len(parts) == 3 {
+			var found *types.Package
+			for _, imp := range ct.Pkg.Imports() {
+				if imp.Name() == parts[0] {
+					found = imp
+				}
+			}
+			if found == nil {
+				return nil, fmt.Errorf("implements: package %q is not imported", parts[0])
+			}
+			pkg = found
+			parts = parts[1:]
+		}
+		if len(parts) != 2 {
+			return nil, fmt.Errorf("implements: bad interface method %q", rest)
+		}
+		key := "(" + pkg.Path() + "." + parts[0] + ")." + parts[1]
+		b := c.Contracts[key]
+		if b == nil {
+			return nil, fmt.Errorf("implements: no contract %s", key)
+		}
+		return b, nil
+	case "field":
+		parts := strings.Split(rest, ".")
+		if len(parts) != 2 {
+			return nil, fmt.Errorf("implements: bad field %q", rest)
+		}
+		obj := ct.Pkg.Scope().Lookup(parts[0])
+		if obj == nil {
+			return nil, fmt.Errorf("implements: no type %q", parts[0])
+		}
+		key := "field:" + c.Reg.TypeKey(obj.Type()) + "|" + parts[1]
+		b := c.Contracts[key]
+		if b == nil {
+			return nil, fmt.Errorf("implements: no contract %s", key)
+		}
+		return b, nil
+	}
+	return nil, fmt.Errorf("implements: expected `iface I.M` or `field T.f`, got %q", spec)
+}
+
+// baseEnv: the environment the clauses of the implemented contract are evaluated in (its
+// parameter names bound positionally to the parameters of the implementing function).
+func (c *Ctx) baseEnv(env *specEnv, base *Contract, fn *ssa.Function) *specEnv {
+	e2 := *env
+	e2.vars = map[string]specVal{}
+	for k, v := range env.vars {
+		e2.vars[k] = v
+	}
+	if base.Pkg != nil {
+		e2.pkg = base.Pkg
+	}
+	off := len(fn.Params) - len(base.Params)
+	if off == 1 {
+		if v, ok := env.vars["$0"]; ok {
+			e2.vars["self"] = v
+		}
+	}
+	for i, nm := range base.Params {
+		if v, ok := env.vars[fmt.Sprintf("$%d", i+off)]; ok {
+			e2.vars[nm] = v
+		}
+	}
+	return &e2
 }
